@@ -98,8 +98,8 @@ func NewBuilder(t *rapid.T, c *Chain, w *World) *Builder {
 		fSubsidy: cs.FoundationSubsidyAddress, fMgmt: cs.FoundationManagementAddress, AllowEphemeral: true}
 }
 
-func (b *Builder) v1Allowed() bool { return b.Child < b.C.Net.HardforkV2.RequireHeight }
-func (b *Builder) v2Allowed() bool { return b.Child >= b.C.Net.HardforkV2.AllowHeight }
+func (b *Builder) v1Allowed() bool  { return b.Child < b.C.Net.HardforkV2.RequireHeight }
+func (b *Builder) v2Allowed() bool  { return b.Child >= b.C.Net.HardforkV2.AllowHeight }
 func (b *Builder) maturity() uint64 { return b.Child + b.C.Net.MaturityDelay }
 func (b *Builder) label(l string)   { b.Exp.Labels = append(b.Exp.Labels, l) }
 
